@@ -49,6 +49,7 @@ type Exec struct {
 	assignNodes       map[*types.Var][]ast.Node // non-defining assignments to each local
 	closesChans       []Term // channels the goroutine under proof may close without owning them (closes=)
 	inputChans        []Term // the channels declared as inputs of the goroutine under proof
+	sharedLoopVars    map[types.Object]bool // loop variables of files with pre-1.22 semantics: one variable for all iterations
 	staleOrdinals     bool // the body has another number of loops than the contract was written for
 	unknownSeen       map[string]bool   // names of the contract that resolved to nothing (seen by invariant inference)
 	rename            map[string]string // contract name -> program name (repair of a renamed local)
@@ -604,7 +605,7 @@ func (x *Exec) store(st *State, fr *Frame, l ast.Expr, v Term) {
 		if v.Ty == nil {
 			v.Ty = obj.Type()
 		}
-		if x.info.Defs[l] == obj {
+		if x.info.Defs[l] == obj && !x.sharedLoopVars[obj] {
 			// a definition is a new variable: forget the cell of a previous instance
 			delete(st.cells, obj)
 		}
@@ -1034,13 +1035,45 @@ func (x *Exec) forStmt(st *State, fr *Frame, s *ast.ForStmt, k func(*State)) {
 		x.genericLoop(st, fr, s, s.Body.List, hidden, head, post, k)
 	}
 	if s.Init != nil {
+		if as, ok := s.Init.(*ast.AssignStmt); ok && as.Tok == token.DEFINE {
+			x.predeclareLoopVars(st, s, as.Lhs...)
+		}
 		x.stmt(st, fr, s.Init, start)
 	} else {
 		start(st)
 	}
 }
 
+// predeclareLoopVars: before Go 1.22 the variables declared by a for/range clause are one
+// variable each for the whole loop; they exist (with their zero value) before the first
+// iteration, so that an address taken in the body is the same cell in every iteration.
+func (x *Exec) predeclareLoopVars(st *State, n ast.Node, es ...ast.Expr) {
+	if x.perIterationLoopVars(n) {
+		return
+	}
+	for _, e := range es {
+		id, ok := e.(*ast.Ident)
+		if !ok || id.Name == "_" {
+			continue
+		}
+		o, ok := x.info.Defs[id].(*types.Var)
+		if !ok {
+			continue
+		}
+		if x.sharedLoopVars == nil {
+			x.sharedLoopVars = map[types.Object]bool{}
+		}
+		x.sharedLoopVars[o] = true
+		if _, has := st.vars[o]; !has {
+			st.vars[o] = x.zero(o.Type())
+		}
+	}
+}
+
 func (x *Exec) rangeStmt(st *State, fr *Frame, s *ast.RangeStmt, k func(*State)) {
+	if s.Tok == token.DEFINE {
+		x.predeclareLoopVars(st, s, s.Key, s.Value)
+	}
 	xt := x.info.TypeOf(s.X)
 	switch u := types.Unalias(xt).Underlying().(type) {
 	case *types.Chan:
